@@ -25,7 +25,7 @@ BOUND = {"quick": "one-at-a-time around a base + all boundary crossings", "thoro
 NODES_CONTENT = {"ContentInfo": (), "[0]": (1,), "EnvelopedData": (1, 0), "EncryptedContentInfo": (1, 0, 2), "encryptedContent": (1, 0, 2, 2)}
 NODES_KID = {"recipientInfos": (1, 0, 1), "kekri": (1, 0, 1, 0), "KEKIdentifier": (1, 0, 1, 0, 1), "keyIdentifier": (1, 0, 1, 0, 1, 0)}
 BASE_KID = dict(version=1, flags=2, l0=361, l1=17, l2=13, rkid=uuid.UUID("2e1b932a-4e21-ced3-0b7b-8815aff8335d"), key_info=bytes(range(32)), domain="domain.test", forest="forest.test")
-NAMES = ["", "a", "dömäin.test", "\U0001d521.test", "a" * 63 + ".test", "\ufeffbom.test", "\ufffeab", "a\x00b"]
+NAMES = ["", "a", "dömäin.test", "\U0001d521.test", "a" * 63 + ".test", "\ufeffbom.test", "\ufffeab", "a\x00b", "cafe\u0301.test", "\ufb01le.\u212bngstrom", "\u1e9b\u0323.x"]  # last three: not in NFC / NFKC (combining marks, compatibility code points) - names are code units, never normalised
 U32 = [0, 1, 2**31, 2**32 - 1]
 SIDS = ["S-1-5-18", "S-1-5-21-2185496602-3367037166-1388177638-1103", "S-1-0-" + "-".join(["4294967295"] * 15), "S-9-281474976710655-0"]
 GCM = cms.gcm_params(bytes(range(12)))
